@@ -24,7 +24,8 @@ variable {σ : Type} (o : Options) (cb : Int → Int → Int) (score : List Seg 
 conditions, the empties rule, "the chosen roster is removed", the order of `sort.go`, no source of
 nondeterminism in the package) are the ones the model was transcribed from. -/
 theorem gen_facts_match_model : BlugeGen.C19.facts = expectedFacts BlugeGen.C19.skipNoop := by
-  set_option maxRecDepth 4096 in decide
+  rfl   -- (both sides are closed terms: the kernel evaluates and compares the string literals; `decide` on
+        --  400-character strings goes through `String` equality character by character and takes 20 s)
 
 /-! ## termination -/
 
